@@ -2,7 +2,7 @@
 # seedrun.sh <prop> <round> [extra props…]: stage the sub-agent's files from /tmp/sd_<prop>/_scratch and run seedcheck in worktree mode
 P=$1; R=$2; shift 2
 S=/tmp/stage_$P-$R; rm -rf $S; mkdir -p $S
-cp /tmp/sd_$P/_scratch/patch.diff /tmp/sd_$P/_scratch/demo.py $S/ || exit 2
-cp /tmp/sd_$P/_scratch/NOTES.md $S/ 2>/dev/null
+cp /tmp/s${R}_$P/_scratch/patch.diff /tmp/s${R}_$P/_scratch/demo.py $S/ || exit 2
+cp /tmp/s${R}_$P/_scratch/NOTES.md $S/ 2>/dev/null
 cd /verif && SEEDCHECK_MODE=${SEEDCHECK_MODE-wt} /venv/bin/python tools/seedcheck.py $P-$R $P $S "$@" 2>&1 | grep -v WARNING | tail -2
 rm -rf $S
